@@ -120,10 +120,17 @@ def run_check(pid, mod, tier, seed):
     unit_info = []
     stubs_used, contracts_used, weak_loops, inlined = set(), set(), [], set()
     trivial = 0
+    pre_solved = []      # (obligation shell, result) pairs decided inside the subtree workers
     for c in units:
         x = Explorer(REG, c)
-        obs = dedupe(x.explore())
-        nontrivial_by_unit = len(obs)
+        if getattr(c, "parallel", False) or os.environ.get("PYVC_PARALLEL_ALL"):
+            obs, solved = explore_parallel(x, c)
+            obs = dedupe(obs)
+            pre_solved.extend(solved)
+        else:
+            obs = dedupe(x.explore())
+            solved = []
+        nontrivial_by_unit = len(obs) + len(solved)
         if nontrivial_by_unit + x.trivial == 0:
             print(f"CHECKER-FAILURE property={pid} zero obligations for {c.fq}")
             return 3
@@ -135,7 +142,7 @@ def run_check(pid, mod, tier, seed):
         weak_loops += [f"{c.fq}#loop:{k}" for k in sorted(map(str, x.weak_loops))]
         fi = x.finfo
         unit_info.append({"function": c.fq, "source_sha256_16": fi.sha(), "loc": fi.loc(), "file": os.path.relpath(fi.module.path, REPO),
-                          "line": fi.node.lineno, "paths": x.paths, "exits": x.exits, "obligations": len(obs), "trivially_true": x.trivial})
+                          "line": fi.node.lineno, "paths": x.paths, "exits": x.exits, "obligations": len(obs) + len(solved), "trivially_true": x.trivial})
     # lemmas
     for name, prop, build, note in REG.lemmas:
         if prop != pid:
@@ -171,6 +178,9 @@ def run_check(pid, mod, tier, seed):
         print(f"CHECKER-FAILURE property={pid} no obligations generated")
         return 3
     results = solve.solve_obligations(obligations)
+    for o, r in pre_solved:
+        obligations.append(o)
+        results.append(r)
     wall_solve = time.time() - t0
     # ---- classify
     discharged, refuted, undecided, errors, cover_bad, finding_checks = [], [], [], [], [], []
@@ -358,6 +368,68 @@ def run_check(pid, mod, tier, seed):
     print(f"[{pid}] {status}: {n_discharged}/{n_proof_obl} obligations discharged ({by_backend}), {len(refuted)} refuted, "
           f"{len(undecided)} undecided, {len(units)} functions, {wall:.1f}s")
     return code
+
+
+_PAR = {}
+
+
+def _subtree_worker(args):
+    fq, prefix, mf = args
+    try:
+        c = REG.contracts[fq]
+        x = Explorer(REG, c)
+        x.maybe_foreign = set(mf)
+        obs = dedupe(x.explore_subtree(prefix))
+        out = []
+        for o in obs:
+            r = solve.work_obj(o)
+            meta = {"name": o.name, "unit": o.unit, "path": o.path, "kind": o.kind, "expect_sat": o.expect_sat, "note": str(o.note)[:400]}
+            out.append((meta, r))
+        return {"results": out, "paths": x.paths, "trivial": x.trivial, "exits": x.exits, "stubs": [str(s) for s in x.stubs_used],
+                "contracts": list(x.contracts_used), "inlined": list(x.inlined), "weak": [str(w) for w in x.weak_loops],
+                "mf": list(x.maybe_foreign), "error": None}
+    except (EngineError, ExtractionError) as e:
+        return {"error": f"{type(e).__name__}: {e}", "results": []}
+
+
+def explore_parallel(x, c):
+    """Breadth-first warm-up in this process, then one forked worker per unexplored decision subtree (each explores its
+    subtree, builds and decides its obligations)."""
+    import multiprocessing as mp
+    from concurrent.futures import ProcessPoolExecutor
+    obs = x.warmup()
+    subtrees = list(x.pending)
+    x.pending = []
+    if not subtrees:
+        return obs, []
+    ctx = mp.get_context("fork")
+    with ProcessPoolExecutor(max_workers=min(16, len(subtrees)), mp_context=ctx) as pool:
+        outs = list(pool.map(_subtree_worker, [(c.fq, p, list(x.maybe_foreign)) for p in subtrees], chunksize=1))
+    solved = []
+    for o in outs:
+        if o.get("error"):
+            raise EngineError(o["error"])
+        x.paths += o["paths"]
+        x.trivial += o["trivial"]
+        for k, v in o["exits"].items():
+            x.exits[k] = x.exits.get(k, 0) + v
+        x.stubs_used |= set(o["stubs"])
+        x.contracts_used |= set(o["contracts"])
+        x.inlined |= set(o["inlined"])
+        if set(map(tuple, o["mf"])) - set(x.maybe_foreign):
+            raise EngineError("aliasing information discovered inside a parallel subtree; run this unit serially (contract.parallel = False)")
+        for meta, r in o["results"]:
+            shell = Obligation(meta["name"], [], None, meta["unit"], meta["path"], meta["kind"], meta["expect_sat"], meta["note"])
+            solved.append((shell, r))
+    # de-duplicate across subtrees
+    seen, uniq = set(), []
+    for shell, r in solved:
+        key = (shell.name, tuple(shell.path))
+        if key in seen:
+            continue
+        seen.add(key)
+        uniq.append((shell, r))
+    return obs, uniq
 
 
 def dedupe(obs):
